@@ -460,7 +460,7 @@ func canon(js string) string {
 func c16viol(d *c16Data, class, format string, args ...any) *kernel.Violation {
 	sc := &d.Scenario
 	var sb strings.Builder
-	fmt.Fprintf(&sb, "kind=%s argv=%q\nstdin=%q plan=%s\n", d.Kind, sc.argv(), kernel.Short2(sc.Stdin, 300), sc.PlanClass)
+	fmt.Fprintf(&sb, "kind=%s argv=%q\nstdin=%q plan=%s\n", d.Kind, sc.argvForDisplay(), kernel.Short2(sc.Stdin, 300), sc.PlanClass)
 	for i, s := range sc.Sources {
 		if s.Name != "-" {
 			fmt.Fprintf(&sb, "source %d (file)=%q\n", i, kernel.Short2(s.Text, 300))
@@ -806,7 +806,7 @@ func (C16) RunUnit(env *kernel.Env, unit int) {
 			v := judgeC16(&d, res)
 			record(&d, res, v)
 			if out.WantSample() && k == 0 {
-				out.Sample(map[string]any{"kind": d.Kind, "argv": d.Scenario.argv(), "stdin": kernel.Short2(d.Scenario.Stdin, 200), "plan": d.Scenario.PlanClass, "stdout": kernel.Short2(res.Stdout, 160), "exit": res.Exit})
+				out.Sample(map[string]any{"kind": d.Kind, "argv": d.Scenario.argvForDisplay(), "stdin": kernel.Short2(d.Scenario.Stdin, 200), "plan": d.Scenario.PlanClass, "stdout": kernel.Short2(res.Stdout, 160), "exit": res.Exit})
 			}
 		}
 		return
